@@ -23,6 +23,11 @@ SEEDS = [
     "guard: &'a' | !'b' 'c' | 'b' 'a'\nstmt: guard NAME | 'b' 'b'\nstart: stmt 'z'\n",
     "start: a NEWLINE\na: ('x' | 'y'?) NAME* 'k'\n",
     "start: !'a' x 'q'\nx: 'a' | 'b'?\n",
+    # mutually recursive nullable rules reached through a group (item flags must be recomputed in later passes)
+    "start: b 'e'\nb: 'k' a | 'm'?\na: (b) 'w' | 'v'?\nc: a 'z'\n",
+    "start: c 'e'\nb: 'k' a | 'm'?\na: (b)+ 'w' | 'v'?\nc: a 'z'\n",
+    # an alternative made only of lookaheads and optional items, followed by another alternative
+    "start: term 'e'\nterm: sign 'n'\nsign: !'+' '-'? | '+' '+'\n",
 ]
 
 PRELUDE = g2c.HEADER + """From Pegen Require Import Analysis.Visitor Analysis.Nullable Analysis.FirstSets Analysis.FirstPure Proofs.VisitorSim Proofs.NullableProofs.
